@@ -5,7 +5,8 @@
     Matrices are the flat row-major arrays of the Rust slices: [getm a n i j = nth (i*n+j) a 0]. *)
 From Coq Require Import List Arith Bool ZArith QArith Reals Permutation Lia Lra Floats.
 From Compute Require Import Base.Ops Base.ListMat Model.Reduce Model.MatMul Model.Subst Model.Cholesky Model.LU
-  Spec.Factor Proofs.LinAlgBase Proofs.C11_Subst Proofs.C11_Pred Proofs.C11_Chol Proofs.C11_SPD Proofs.C11_LU Proofs.C11_Solve Proofs.C11_Det Proofs.C11_Forms Proofs.C11_Sign.
+  Spec.Factor Spec.Determinant Proofs.LinAlgBase Proofs.C11_Subst Proofs.C11_Pred Proofs.C11_Chol Proofs.C11_SPD Proofs.C11_LU Proofs.C11_Solve Proofs.C11_Det Proofs.C11_Forms Proofs.C11_Sign
+  Proofs.C11_DetLaplace Proofs.C11_DetLU Proofs.C11_DetLeibniz.
 Import ListNotations.
 Local Open Scope R_scope.
 
@@ -300,6 +301,178 @@ Theorem C11_det_formula_inversion_sign :
       matrix_lu RO m = Some (lum, piv) /\ is_perm piv n /\
       matrix_det RO m = Some (rprod (fun i => getm (dat lum) n i i) n * IZR (sign_inv piv)).
 Proof. exact @det_formula_inversions. Qed.
+
+(** ** The returned number IS the determinant (extension, closed)
+    [Spec.Determinant]: [determinant A] is the cofactor expansion of the list-of-rows matrix [A] along its
+    first column, [det_n n a] the same for an entry function read at indices < n; no factorisation is
+    involved in the definition.  Carrier: the reals ([RO]), the same model terms [matrix_det], [matrix_lu],
+    [matrix_lu_det], [lu] of Model/LU.v that the bitwise correspondence ties to the code. *)
+
+(** [Matrix::det], for EVERY order n >= 1 and EVERY n x n matrix given by its rows, singular ones included *)
+Theorem C11_det_is_determinant :
+  forall (n : nat) (A : list (list R)),
+    (0 < n)%nat -> length A = n -> (forall r, In r A -> length r = n) ->
+    matrix_det RO {| nr := n; nc := n; dat := flatten A |} = Some (determinant A).
+Proof. exact @det_is_determinant. Qed.
+
+(** the same on a [Matrix] value ([mrows m] = its rows) *)
+Theorem C11_matrix_det_is_determinant :
+  forall m : matrix (T:=R),
+    well_formed m = true -> nr m = nc m -> matrix_det RO m = Some (determinant (mrows m)).
+Proof. exact @matrix_det_is_determinant. Qed.
+
+(** [Matrix::lu] followed by [Matrix::lu_det] on its outputs *)
+Theorem C11_matrix_lu_det_is_determinant :
+  forall (m l : matrix (T:=R)) (piv : list nat),
+    matrix_lu RO m = Some (l, piv) -> matrix_lu_det RO l piv = Some (determinant (mrows m)).
+Proof. exact @matrix_lu_det_is_determinant. Qed.
+
+(** slice level: the determinant of the input is (product of U's diagonal) * (inversion sign of the pivots) *)
+Theorem C11_lu_determinant :
+  forall (a m : list R) (piv : list nat) (n : nat),
+    lu RO a = Some (m, piv) -> (n * n)%nat = length a ->
+    determinant (unflatten a n n) = rprod (fun i => getm m n i i) n * IZR (sign_inv piv).
+Proof. exact @lu_determinant. Qed.
+
+(** singular matrices: det A = 0 exactly when some u_ii = 0 (the column [lu] leaves unscaled) *)
+Theorem C11_determinant_zero_iff_zero_pivot :
+  forall (a m : list R) (piv : list nat) (n : nat),
+    lu RO a = Some (m, piv) -> (n * n)%nat = length a ->
+    (determinant (unflatten a n n) = 0 <-> exists i, (i < n)%nat /\ getm m n i i = 0).
+Proof. exact @lu_determinant_zero_iff. Qed.
+
+(** integer matrices: on the reals the routine returns the exact integer determinant
+    ([zdeterminant]: the same cofactor expansion computed in Z) *)
+Theorem C11_det_integer_exact :
+  forall (n : nat) (A : list (list Z)),
+    (0 < n)%nat -> length A = n -> (forall r, In r A -> length r = n) ->
+    matrix_det RO {| nr := n; nc := n; dat := flatten (map (map IZR) A) |} = Some (IZR (zdeterminant A)).
+Proof. exact @det_integer_exact. Qed.
+
+Theorem C11_determinant_of_integer_matrix :
+  forall A : list (list Z), determinant (map (map IZR) A) = IZR (zdeterminant A).
+Proof. exact @determinant_IZR. Qed.
+
+(** the hypotheses are satisfiable, on a matrix that needs a row exchange and on a singular one *)
+Example C11_det_is_determinant_example :
+  matrix_det RO {| nr := 2; nc := 2; dat := flatten [[0; 2]; [1; 1]] |} = Some (-2) /\
+  matrix_det RO {| nr := 2; nc := 2; dat := flatten [[1; 2]; [2; 4]] |} = Some 0.
+Proof.
+  split.
+  - rewrite (det_is_determinant 2 [[0; 2]; [1; 1]]); [f_equal; rewrite determinant_2x2; lra|lia|reflexivity|].
+    intros r [<-|[<-|[]]]; reflexivity.
+  - rewrite (det_is_determinant 2 [[1; 2]; [2; 4]]); [f_equal; rewrite determinant_2x2; lra|lia|reflexivity|].
+    intros r [<-|[<-|[]]]; reflexivity.
+Qed.
+
+Example C11_zdeterminant_example : zdeterminant [[2; 0; 1]; [1; 3; 2]; [1; 1; 1]]%Z = 0%Z /\
+                                   zdeterminant [[0;0;0;16]; [16;0;0;0]; [0;16;0;0]; [0;0;16;0]]%Z = (-65536)%Z.
+Proof. split; vm_compute; reflexivity. Qed.
+
+(** *** The spec is the determinant: the cofactor definition has the properties that characterise it
+    (linear in every row, sign change under every exchange of two rows, 1 on the identity), the
+    closed forms at orders 2 and 3, and the product of the diagonal on triangular matrices *)
+Theorem C11_determinant_row_linear :
+  forall (n : nat) (a : nat -> nat -> R) (i : nat) (u v : nat -> R) (x y : R),
+    (i < n)%nat ->
+    det_n n (fun r c => if (r =? i)%nat then x * u c + y * v c else a r c) =
+    x * det_n n (fun r c => if (r =? i)%nat then u c else a r c) +
+    y * det_n n (fun r c => if (r =? i)%nat then v c else a r c).
+Proof. exact @det_row_lin. Qed.
+
+Theorem C11_determinant_row_exchange :
+  forall (n : nat) (a : nat -> nat -> R) (i j : nat),
+    (i < n)%nat -> (j < n)%nat -> i <> j ->
+    det_n n (fun r c => a (if (r =? i)%nat then j else if (r =? j)%nat then i else r) c) = - det_n n a.
+Proof. exact @det_swap_rows. Qed.
+
+Theorem C11_determinant_repeated_row :
+  forall (n : nat) (a : nat -> nat -> R) (i j : nat),
+    (i < n)%nat -> (j < n)%nat -> i <> j -> (forall c, (c < n)%nat -> a i c = a j c) -> det_n n a = 0.
+Proof. exact @det_eq_rows. Qed.
+
+Theorem C11_determinant_identity :
+  forall n : nat, det_n n (fun i j => if (i =? j)%nat then 1 else 0) = 1.
+Proof. exact @det_identity. Qed.
+
+Theorem C11_determinant_only_reads_the_matrix :
+  forall (n : nat) (a b : nat -> nat -> R),
+    (forall r c, (r < n)%nat -> (c < n)%nat -> a r c = b r c) -> det_n n a = det_n n b.
+Proof. exact @det_ext. Qed.
+
+Theorem C11_determinant_upper_triangular :
+  forall (n : nat) (u : nat -> nat -> R),
+    (forall i j, (i < n)%nat -> (j < n)%nat -> (j < i)%nat -> u i j = 0) ->
+    det_n n u = rprod (fun i => u i i) n.
+Proof. exact @det_upper. Qed.
+
+(** a row permutation multiplies the determinant by the inversion sign *)
+Theorem C11_determinant_row_permutation :
+  forall (n : nat) (a : nat -> nat -> R) (p : list nat),
+    is_perm p n -> det_n n (fun r c => a (nth r p 0%nat) c) = IZR (sign_inv p) * det_n n a.
+Proof. exact @det_perm_rows. Qed.
+
+Theorem C11_determinant_2x2 :
+  forall a b c d : R, determinant [[a; b]; [c; d]] = a * d - b * c.
+Proof. exact @determinant_2x2. Qed.
+
+Theorem C11_determinant_3x3 :
+  forall a b c d e f g h i : R,
+    determinant [[a; b; c]; [d; e; f]; [g; h; i]] =
+    a * e * i + b * f * g + c * d * h - c * e * g - b * d * i - a * f * h.
+Proof. exact @determinant_3x3. Qed.
+
+(** *** Leibniz form: the cofactor determinant is the sum over ALL index vectors p in {0..n-1}^n of
+    sgn(p) * prod_i a[i][p_i], with sgn = [sign_inv]: THE sign on permutations ([C11_sign_exists],
+    [C11_sign_unique]) and 0 on a vector with a repeated entry — i.e. the sum over the permutations.
+    [vectors n n] lists each index vector exactly once. *)
+Theorem C11_determinant_leibniz :
+  forall (n : nat) (a : nat -> nat -> R),
+    det_n n a =
+    fold_right Rplus 0 (map (fun p => IZR (sign_inv p) * rprod (fun i => a i (nth i p 0%nat)) n) (vectors n n)).
+Proof. exact @det_leibniz. Qed.
+
+Theorem C11_determinant_leibniz_rows :
+  forall A : list (list R),
+    determinant A = leibniz sign_inv (length A) (fun i j => nth j (nth i A []) 0).
+Proof. exact @determinant_leibniz. Qed.
+
+Theorem C11_sign_inv_zero_on_repeated_entry :
+  forall (p : list nat) (i j : nat),
+    (i < j)%nat -> (j < length p)%nat -> nth i p 0%nat = nth j p 0%nat -> sign_inv p = 0%Z.
+Proof. exact @sign_inv_repeat. Qed.
+
+Theorem C11_sign_inv_unit_on_permutations :
+  forall (p : list nat) (n : nat), is_perm p n -> (sign_inv p * sign_inv p = 1)%Z.
+Proof. exact @sign_inv_sq. Qed.
+
+Theorem C11_vectors_enumerates :
+  forall (n k : nat) (p : list nat),
+    In p (vectors n k) <-> length p = k /\ forall x, In x p -> (x < n)%nat.
+Proof. exact @vectors_iff. Qed.
+
+Theorem C11_vectors_NoDup : forall n k : nat, NoDup (vectors n k).
+Proof. exact @vectors_NoDup. Qed.
+
+(** over the integers: cofactor expansion = Leibniz sum, and this is what the routine returns on the
+    reals for an integer matrix *)
+Theorem C11_zdeterminant_leibniz :
+  forall (n : nat) (a : nat -> nat -> Z),
+    zdet_n n a =
+    fold_right Z.add 0%Z (map (fun p => (sign_inv p * zpi (fun i => a i (nth i p 0%nat)) n)%Z) (vectors n n)).
+Proof. exact @zdet_leibniz. Qed.
+
+Theorem C11_det_integer_leibniz :
+  forall (n : nat) (A : list (list Z)),
+    (0 < n)%nat -> length A = n -> (forall r, In r A -> length r = n) ->
+    matrix_det RO {| nr := n; nc := n; dat := flatten (map (map IZR) A) |} =
+    Some (IZR (zleibniz sign_inv n (fun i j => nth j (nth i A []) 0%Z))).
+Proof. exact @det_integer_leibniz. Qed.
+
+Example C11_leibniz_example :
+  zleibniz sign_inv 3 (fun i j => nth j (nth i [[2; 0; 1]; [1; 3; 2]; [1; 1; 4]]%Z []) 0%Z) = 18%Z /\
+  zdeterminant [[2; 0; 1]; [1; 3; 2]; [1; 1; 4]]%Z = 18%Z.
+Proof. split; vm_compute; reflexivity. Qed.
 
 (** ** Behaviour at the edges *)
 
